@@ -187,13 +187,32 @@ def solve_spec(d, ty):
     return 0, float(-res.fun), res.x
 
 
-def solve_rows(rows, want_duals=False):
-    """re-solve the rows captured from the code's own PuLP model (maximise slot 25 = the objective variable, all
-    variables >= 0) with HiGHS.  -> (status, optimum).  Used to tell a CBC precision gap from a wrong formulation."""
+def first_objective(rec):
+    """the objective PuLP was asked to maximise in the FIRST solve of a captured record (terms [[slot, month, coef]..]),
+    or None when it was not captured"""
+    objs = rec.get("objectives") or []
+    if objs and "terms" in objs[0]:
+        return objs[0]
+    return None
+
+
+def objective_is_pure(obj):
+    """True when the captured objective is exactly 'maximise the objective variable' (slot 25), as Model/LP.v says"""
+    return obj is not None and obj["sense"] == -1 and obj.get("constant", 0.0) == 0.0 and \
+        [[int(a), int(b), float(c)] for a, b, c in obj["terms"]] == [[25, 0, 1.0]]
+
+
+def solve_rows(rows, want_duals=False, objective=None):
+    """re-solve the rows captured from the code's own PuLP model with HiGHS, all variables >= 0, maximising the
+    captured first objective when one is given (else slot 25 = the objective variable).  -> (status, optimum).
+    Used to tell a CBC precision gap from a wrong formulation."""
     idx = {}
     for _s, _b, terms in rows:
         for sl, m, _c in terms:
             idx.setdefault((sl, m), len(idx))
+    if objective is not None:
+        for sl, m, _c in objective["terms"]:
+            idx.setdefault((int(sl), int(m)), len(idx))
     if (25, 0) not in idx:
         return (9, None, None) if want_duals else (9, None)
     nv = len(idx)
@@ -214,7 +233,12 @@ def solve_rows(rows, want_duals=False):
                 A[i, j] += co
         return A.tocsr()
     c = np.zeros(nv)
-    c[idx[(25, 0)]] = -1.0
+    if objective is not None and not want_duals:
+        sign = -1.0 if objective["sense"] == -1 else 1.0     # linprog minimises
+        for sl, m, co in objective["terms"]:
+            c[idx[(int(sl), int(m))]] += sign * float(co)
+    else:
+        c[idx[(25, 0)]] = -1.0
     res = linprog(c, A_ub=mat(A_ub) if A_ub else None, b_ub=np.array(b_ub) if A_ub else None,
                   A_eq=mat(A_eq) if A_eq else None, b_eq=np.array(b_eq) if A_eq else None,
                   bounds=[(0.0, None)] * nv, method="highs",
